@@ -798,3 +798,189 @@ def _shape(p: dict) -> str:
     if "start" in p:
         return "start/stop/step"
     return ""
+
+
+# ================================================================================================ C20 / C06 / C05 on tier G
+_MUT = {"append", "extend", "insert", "pop", "popitem", "remove", "clear", "update", "setdefault", "sort", "reverse", "add",
+        "discard"}
+
+
+def c20_checks(repo: Repo, tier: str, res: CheckResult, seed: int) -> None:
+    n = 0
+    for kind in ("loader", "dumper"):
+        for prog, S in audited(repo, tier, seed, kind):
+            n += 1
+            res.evaluated(f"G:pure:{prog.ident}", True)
+            for txt, line in S.stores_into_data:
+                res.add(_gen_finding("C20", "PURE.generated-argument-mutation", prog, line, txt,
+                                     f"`{txt}` modifies the {kind}'s argument"))
+            ns = prog.rec["namespace"]
+            shared = {k for k, v in ns.items() if v["type"] in ("builtins.set", "builtins.dict", "builtins.list")}
+            for c in ast.walk(prog.fn):
+                if isinstance(c, ast.Call) and isinstance(c.func, ast.Attribute) and c.func.attr in _MUT \
+                        and isinstance(c.func.value, ast.Name) and c.func.value.id in shared:
+                    res.add(_gen_finding("C20", "FRESH.generated-shared-constant-mutated", prog, c.lineno, norm(c),
+                                         f"`{norm(c)}` mutates a container that lives in the closure's namespace (created once)"))
+                if isinstance(c, (ast.Assign, ast.AugAssign)):
+                    tg = c.targets[0] if isinstance(c, ast.Assign) else c.target
+                    if isinstance(tg, ast.Subscript) and isinstance(tg.value, ast.Name) and tg.value.id in shared:
+                        res.add(_gen_finding("C20", "FRESH.generated-shared-constant-mutated", prog, c.lineno, norm(c),
+                                             f"`{norm(c)}` stores into a container of the closure's namespace"))
+            if kind == "loader":
+                for var, init in S.extra_inits.items():
+                    ok = init == "{}" or (init.startswith("[") and set(init) <= set("[]{}, None"))
+                    if not ok:
+                        res.add(_gen_finding("C20", "FRESH.generated-extra-not-fresh", prog, 0, f"{var} = {init}",
+                                             f"`{var} = {init}`: collected extras must be a container created in the body "
+                                             "(never the input mapping or a shared object)"))
+                for var in ("packed_fields", "errors"):
+                    if var in S.containers_created and S.containers_created[var] not in ("{}", "[]"):
+                        res.add(_gen_finding("C20", "FRESH.generated-container", prog, 0, f"{var} = {S.containers_created[var]}",
+                                             f"`{var}` is not created by a display in the function body"))
+            else:
+                for var, init in S.containers_created.items():
+                    if var in ("opt_fields", "errors", "extra_stack") and init not in ("{}", "[]"):
+                        res.add(_gen_finding("C20", "FRESH.generated-container", prog, 0, f"{var} = {init}",
+                                             f"`{var}` is not created by a display in the function body"))
+                    if var.startswith("result") and init not in ("Dict", "List"):
+                        res.add(_gen_finding("C20", "FRESH.generated-container", prog, 0, f"{var} built by {init}",
+                                             f"node `{var}` is not built by a display evaluated on each call"))
+    res.count("PURE.generated-programs", n, 500)
+
+
+def _loader_fingerprint(S: LoaderSummary) -> Dict[str, Any]:
+    groups = {"AggregateLoadError", "CompatExceptionGroup", "UnionLoadError"}
+    call = S.ctor_calls[0] if S.ctor_calls else None
+    return {
+        "reads": sorted((r.field_id, repr(r.path), r.via, r.target) for r in S.reads),
+        "rejects": sorted({(c, repr(p)) for c, p, _t, _l, _x in S.rejects if c not in groups}),
+        "forbid": sorted((a, b) for a, b, _ in S.forbid_checks),
+        "collect": sorted((a, b, c) for a, b, c, _ in S.extra_copies),
+        "links": sorted((a, repr(k), c, cond) for a, k, c, cond, _ in S.extra_links),
+        "len": sorted((a, b, c) for a, b, c, _ in S.len_checks),
+        "type_checks": sorted(set((a, b) for a, b, _ in S.type_checks)),
+        "ctor": norm(call) if call is not None else None,
+        "defaults": {k: sorted(set(v)) for k, v in sorted(S.defaults.items())},
+    }
+
+
+def c06_checks(repo: Repo, tier: str, res: CheckResult, seed: int) -> None:
+    groups: Dict[Tuple, Dict[str, Tuple[GenProg, Any]]] = {}
+    for prog, S in audited(repo, tier, seed, "loader"):
+        r = prog.rec
+        key = ("loader", r["shape_name"], r["crown_name"], _policy(r["crown"]), json.dumps(r["crown"], sort_keys=True),
+               str(r.get("extra_move")), r["strict"])
+        groups.setdefault(key, {})[r["debug_trail"]] = (prog, _loader_fingerprint(S))
+    for prog, S in audited(repo, tier, seed, "dumper"):
+        r = prog.rec
+        key = ("dumper", r["shape_name"], r["crown_name"], json.dumps(r["crown"], sort_keys=True), str(r.get("extra_move")))
+        fp = {"tree": sorted((repr(p), e[0], repr(e[1]), e[2]) for p, e in S.tree.items()), "return": S.return_expr,
+              "extra": S.extra_source, "sources": sorted((k, v[0], v[1], v[3]) for k, v in S.field_sources.items())}
+        groups.setdefault(key, {})[r["debug_trail"]] = (prog, fp)
+    n = 0
+    for key, modes in groups.items():
+        if len(modes) < 2:
+            continue
+        n += 1
+        res.evaluated("G:modes:" + "/".join(map(str, key[:3])) + ":" + str(key[-1]), True)
+        base_mode = "FIRST" if "FIRST" in modes else sorted(modes)[0]
+        bprog, bfp = modes[base_mode]
+        for mode, (prog, fp) in modes.items():
+            if mode == base_mode:
+                continue
+            diffs = [k for k in fp if fp[k] != bfp.get(k)]
+            # the type check of the root node may be expressed through the first access (handlers) in one mode and an
+            # isinstance in another: compare only the set of checked nodes
+            if "type_checks" in diffs:
+                diffs.remove("type_checks")
+            if diffs:
+                k0 = diffs[0]
+                res.add(_gen_finding("C06", "SIB.generated-mode-disagreement", prog, 0, f"{key[0]} {k0} differs between modes",
+                                     f"programs emitted for debug_trail={mode} and {base_mode} ({'/'.join(map(str, key[:3]))}) "
+                                     f"disagree on {diffs}: {fp[k0]} vs {bfp.get(k0)}"))
+    res.count("SIB.generated-mode-groups", n, 100)
+
+
+def _expected_trail(path) -> Optional[Tuple[str, Any]]:
+    if not path:
+        return None
+    if len(path) == 1:
+        return ("append", path[0])
+    return ("extend", tuple(path))
+
+
+def c05_checks(repo: Repo, tier: str, res: CheckResult, seed: int) -> None:
+    n = 0
+    for prog, S in audited(repo, tier, seed, "loader"):
+        mode = prog.rec["debug_trail"]
+        n += 1
+        res.evaluated("G:trail:" + prog.ident, True)
+        oracle = crown_fields(prog.rec["crown"])
+        for r in S.reads:
+            if r.via not in ("loader",):
+                continue
+            if mode == "DISABLE":
+                if r.trail is not None or r.in_try:
+                    res.add(_gen_finding("C05", "TRAIL.generated-trail-in-disable", prog, r.lineno, "trail in DISABLE",
+                                         f"field `{r.field_id}` is loaded inside a trail-annotating try in DISABLE mode"))
+                continue
+            want = _expected_trail(oracle.get(r.field_id))
+            if not r.in_try or r.trail is None or r.trail == ("none", None):
+                res.add(_gen_finding("C05", "TRAIL.generated-no-trail", prog, r.lineno, "field loader without trail",
+                                     f"errors of the loader of field `{r.field_id}` are not annotated with its path "
+                                     f"{list(oracle.get(r.field_id, ()))}"))
+            elif r.trail != want:
+                res.add(_gen_finding("C05", "TRAIL.generated-wrong-trail", prog, r.lineno,
+                                     f"trail {r.trail[0]} vs {want[0] if want else None}",
+                                     f"errors of field `{r.field_id}` are annotated with {r.trail} but its crown path is "
+                                     f"{list(oracle.get(r.field_id, ()))} (expected {want})"))
+        for cls, path, trail, line, txt in S.rejects:
+            if path is None:
+                continue
+            want = None if mode == "DISABLE" else _expected_trail(path)
+            if trail != want:
+                res.add(_gen_finding("C05", "TRAIL.generated-wrong-trail", prog, line, f"{cls} trail",
+                                     f"{cls} about the node at {list(path)} carries trail {trail}, expected {want}"))
+    res.count("TRAIL.generated-programs", n, 300)
+
+
+def c19_checks(repo: Repo, tier: str, res: CheckResult, seed: int) -> None:
+    """hostile identifiers / keys: the emitted programs must still parse and pass the translation validation"""
+    from .genaudit import audit_dumper as _ad, audit_loader as _al
+    recs = run_child(repo, tier, seed, "hostile")
+    n = 0
+    saved = dict(_AUDIT_CACHE)
+    for kind in ("loader", "dumper"):
+        progs = []
+        for i, r in enumerate(recs):
+            if r.get("kind") != kind:
+                continue
+            n += 1
+            res.evaluated(f"G:hostile:{kind}:{r.get('shape_name')}:{r.get('crown_name')}:{r.get('debug_trail')}", True)
+            if r.get("error"):
+                res.add(Finding("C19", "HOSTILE.generation-fails", f"generated:{kind}", r.get("shape_name", "?"),
+                                f"{r.get('crown_name')}", f"generating a {kind} for hostile names/keys ({r.get('shape_name')}/"
+                                f"{r.get('crown_name')}) failed: {r['error']}"))
+                continue
+            try:
+                tree = ast.parse(r["source"])
+            except SyntaxError as e:
+                res.add(Finding("C19", "HOSTILE.does-not-parse", f"generated:{kind}", r.get("shape_name", "?"),
+                                f"{r.get('crown_name')}", f"the {kind} emitted for hostile names/keys does not compile: {e}"))
+                continue
+            progs.append(GenProg(r, tree, tree.body[0], i))
+        key = (str(repo.root), tier, seed, kind)
+        _AUDIT_CACHE[key] = [(p, _al(p.fn) if kind == "loader" else _ad(p.fn)) for p in progs]
+    try:
+        sub = CheckResult("C19")
+        c03_loader_checks(repo, tier, sub, seed, prop="C19")
+        c03_dumper_checks(repo, tier, sub, seed, prop="C19")
+        for f in sub.findings:
+            if f.rule in ("TV.extra-structural-key", "TV.extra-shallow-merge"):
+                continue
+            f.rule = "HOSTILE." + f.rule
+            res.add(f)
+    finally:
+        _AUDIT_CACHE.clear()
+        _AUDIT_CACHE.update(saved)
+    res.count("HOSTILE.programs", n, 60)
